@@ -95,6 +95,41 @@ func c15MultiKey() *TextSet {
 	})
 }
 
+type c15ND struct{ two, three []string }
+
+// c15NativeDiffs: all sequences of one or two hunks (strict or merge) and all triples of merge hunks over
+// 4 paths x 5 added values, as native diff text.
+func c15NativeDiffs() c15ND {
+	paths := []string{`[]`, `["a"]`, `["a","c"]`, `["b"]`}
+	adds := []string{`1`, `{}`, `{"b":1}`, `[1]`, `{"b":{"d":1}}`}
+	var strict, merge []string
+	for _, p := range paths {
+		for _, a := range adds {
+			strict = append(strict, "@ "+p+"\n+ "+a+"\n")
+			merge = append(merge, "^ {\"Merge\":true}\n@ "+p+"\n+ "+a+"\n")
+		}
+	}
+	var out c15ND
+	all := append(append([]string{}, merge...), strict...)
+	for _, h1 := range all {
+		out.two = append(out.two, h1)
+		for _, h2 := range all {
+			if strings.HasPrefix(h1, "^") && !strings.HasPrefix(h2, "^") {
+				h2 = "^ {\"Merge\":false}\n" + h2
+			}
+			out.two = append(out.two, h1+h2)
+		}
+	}
+	for _, h1 := range merge {
+		for _, h2 := range merge {
+			for _, h3 := range merge {
+				out.three = append(out.three, h1+h2+h3)
+			}
+		}
+	}
+	return out
+}
+
 var c15MergePatches = []string{`{"a":1,"b":2,"c":3}`, `{"a":null,"b":{"x":1,"y":null,"z":{}},"c":[1]}`, `{"a":{"b":{"c":1,"d":2,"e":null}},"f":1}`, `{}`, `1`, `{"a":{}}`,
 	`{"a":1,"b":null,"c":2,"d":null,"e":3}`, `[1,2]`, `{"x":{"y":{"z":null}},"a":null}`,
 	`{"2":"b","10":"c","1a":"d"}`, `{"1":"x","01":"y","a":"z"}`, `{"id":1,"Id":2,"ID":3}`, `{"":1," ":2,"é":3,"E":4,"e":5}`}
@@ -174,6 +209,21 @@ func enumC15(tier string, e *engine.Emitter) {
 			}
 		}
 	}
+	// hand-written hunk sequences (as text): a later hunk may write below what an earlier hunk added
+	nd := c15NativeDiffs()
+	for _, t := range []string{`{}`, `{"a":{"b":0},"b":1}`} {
+		for _, d := range nd.two {
+			e.Emit(engine.Case{Kind: "c15det:native-diff", Leg: "determinism/native-diff", A: t, B: d})
+			for _, h := range c15Histories(2) {
+				e.Emit(engine.Case{Kind: "c15:native-diff", Leg: "history/native-diff", A: t, B: d, X: h})
+			}
+		}
+	}
+	for _, d := range nd.three {
+		for _, h := range c15Histories(1) {
+			e.Emit(engine.Case{Kind: "c15:native-diff", Leg: "history/native-diff-3", A: `{}`, B: d, X: h})
+		}
+	}
 	for _, jp := range c15JSONPatches {
 		for _, t := range c15Targets {
 			e.Emit(engine.Case{Kind: "c15det:json-patch", Leg: "determinism/json-patch", A: t, B: jp})
@@ -221,6 +271,14 @@ func c15Build(kind, A, B string) (*c15World, error) {
 		w.a = impl.Read(A)
 		w.b = impl.Read(B)
 		d, err := jd.ReadMergeString(B)
+		if err != nil {
+			return nil, err
+		}
+		w.d = d
+	case "native-diff":
+		w.a = impl.Read(A)
+		w.b = impl.Read(A)
+		d, err := jd.ReadDiffString(B)
 		if err != nil {
 			return nil, err
 		}
